@@ -33,9 +33,9 @@ QuickInit ==
              { <<>>, << <<2, 1>>, <<1, -1>> >> })
 
 ThoroughInit ==
-  InitFamily({1, 2, 3, 4}, {0, 1, 2}, {<<>>, <<0>>, <<2, 0>>, <<1, 3>>},
+  InitFamily({1, 2, 4}, {0, 1, 2}, {<<>>, <<0>>, <<2, 0>>, <<1, 3>>},
              { <<Ph(3, 0)>>, <<Ph(3, 2)>>, <<Ph(4, 0), Ph(2, 1), Ph(1, 1)>>, <<Ph(3, 1), Ph(1, 0), Ph(2, 2)>> },
-             {0, 1, 3}, {0, 2, 7}, {3, 5, 6}, {0, 2},
+             {0, 3}, {0, 7}, {3, 5, 6}, {0, 2},
              { <<>>, << <<2, 1>>, <<1, -1>> >>, << <<2, 1>>, <<1, -1>>, <<3, 2>> >> })
 
 \* the shapes the code reported (written by the check from recorded traces)
